@@ -750,10 +750,16 @@ def probe_unrelated_sinks_share_nothing(chk, impl, model, pid):
     here: the second sink takes an index the first one handed out, the rename onto an existing file is refused, and the file
     keeps growing across the day change / past L."""
     found = 0
-    main, other = (b'my.app', b'log'), (b'audit', b'log')
     day0 = 19700
-    for (L, N, opts, gran, nseed, seed_main) in ((0, 0, 2, 1, 2, True), (16, 0, 2, 1000, 3, False), (16, 4, 0, 1, 2, True), (12, 0, 6, 1, 2, False),
-                                                 (0, 5, 3, 1000, 1, True)):
+    # the second pair: the SAME complete base name with different suffixes (app.log / app.trace) - anything keyed by the base
+    # name alone (a cached name pattern, a cached index) is shared by these two; in the last configurations the sinks also
+    # have different file-count limits (the `wo` sink gets N2)
+    configs = [((b'my.app', b'log'), (b'audit', b'log'), cfg + (None,)) for cfg in
+               ((0, 0, 2, 1, 2, True), (16, 0, 2, 1000, 3, False), (16, 4, 0, 1, 2, True), (12, 0, 6, 1, 2, False), (0, 5, 3, 1000, 1, True))]
+    configs += [((b'app', b'log'), (b'app', b'trace'), cfg) for cfg in
+                ((16, 4, 0, 1, 2, True, None), (16, 6, 0, 1, 2, True, 3), (12, 6, 4, 1000, 1, False, 3), (16, 3, 2, 1, 2, False, 6), (0, 5, 3, 1000, 1, True, None))]
+    configs += [((b'my.app', b'log'), (b'my.app', b'txt'), (16, 3, 0, 1, 0, True, 5))]
+    for (main, other, (L, N, opts, gran, nseed, seed_main, N2)) in configs:
         seeded, walker = (main, other) if seed_main else (other, main)
         nms = Names(*seeded)
         case = {'L': L, 'N': N, 'opts': opts, 'gran': gran, 'base': main[0], 'suffix': main[1], 't0': day0 * DAY + 40000000, 'tz': 0, 'ops': []}
@@ -771,22 +777,26 @@ def probe_unrelated_sinks_share_nothing(chk, impl, model, pid):
         # day 1: the walker first (its rotation is named after day 0), then the sink that has day-0 files of an earlier run
         ops += [w(walker), w(seeded), w(seeded), w(walker), w(seeded), ('adv', 1000), w(walker), w(seeded)]
         case['ops'] = ops
-        wire = dict(case, ops=[('wo', Names(*o[1]).active, o[2]) if o[0] == 'wo_' else o for o in ops])
+        wire = dict(case, ops=[(('wo', Names(*o[1]).active, o[2]) + ((4, N2) if N2 is not None else ())) if o[0] == 'wo_' else o for o in ops])
         ls, _ = run_impl_one(impl, wire)
         if len(ls) != len(ops) + 1:
             chk.broke('unrelated-sinks probe: harness produced no listing', {'kind': 'harness', 'case': case_json(wire)}); continue
         for mine in (seeded, walker):
             sub, lss = _perspective(case, ls, mine, main)
+            if mine != main and N2 is not None:
+                sub = dict(sub, N=N2)
             bits, _, _, _ = verdicts(sub, model, lss, pid)
             fb = first_bad(bits, BIT[pid])
             if fb is not None:
                 found += 1
-                chk.fail('%s falsified on the real RotatingFileSink: two sinks of one process on two log files of one directory (%s and %s; L=%d N=%d '
+                chk.fail('%s falsified on the real RotatingFileSink: two sinks of one process on two log files of one directory (%s and %s; L=%d N=%d%s '
                          'options=%d), %s starts over %d rotated file(s) of an earlier run dated like its active file; the oracle on the files of %s '
                          'is false after operation %d (%s): the sink objects are not independent of each other' % (
-                             pid, Names(*main).active.decode(), Names(*other).active.decode(), L, N, opts, Names(*seeded).active.decode(), nseed,
+                             pid, Names(*main).active.decode(), Names(*other).active.decode(), L, N, '' if N2 is None else ' (N=%d for the second)' % N2,
+                             opts, Names(*seeded).active.decode(), nseed,
                              Names(*mine).active.decode(), fb, show_op(([None] + list(sub['ops']))[fb])),
-                         {'kind': 'unrelated-sinks-not-independent', 'case': case_json(wire), 'L': L, 'N': N, 'options': opts, 'granularity_ms': gran,
+                         {'kind': 'unrelated-sinks-not-independent', 'case': case_json(wire), 'L': L, 'N': N, 'N_of_the_second_sink': N if N2 is None else N2,
+                          'options': opts, 'granularity_ms': gran, 'log_files': [Names(*main).active.decode(), Names(*other).active.decode()],
                           'sink_under_observation': Names(*mine).active.decode(), 'first_bad_step': fb,
                           'ops_readable': [show_op(o) for o in wire['ops']],
                           'oracle_bits_per_step(c05,c06,c07,c09)': bits,
@@ -861,6 +871,145 @@ def probe_buffered_record_crosses_midnight(chk, impl, model):
               'final_listing': show_listing(ls[-1]), 'case': case_json(case),
               'oracle_bits(c05,c06,c07,c09)': bits}, kind='buffered-record-crosses-midnight-restart')
     return 1
+
+
+def probe_rename_refused(chk, impl, model):
+    """C05 (oracle on the implementation only: the model's hypothesis is "no I/O errors"): somebody created a SUB-DIRECTORY named like
+    the next rotated file, so the rename of every rotation is refused (the directory scans list files only: the index stays 1).
+    Whatever the sink does about it, nothing written before or after the refused rename may be lost: N <= 0 or nothing ever
+    rotated, so the files of the sink must hold the whole history (the unchanged code reports the failure and reopens the active
+    file in append mode - it then outgrows L, which is C10's and the maintainers' business, not a loss)."""
+    found = 0
+    day0 = 19700
+    for (L, N, opts, gran, base, suffix, plan) in ((16, 0, 0, 1, b'my.app', b'log', 'size'), (16, 0, 4, 1000, b'applog', b'', 'size'),
+                                                    (0, 0, 2, 1, b'my.app', b'log', 'day'), (12, 3, 0, 1, b'a+b', b'txt', 'size'),
+                                                    (0, -1, 3, 1, b'my.app', b'log', 'restart'), (64, 0, 6, 1, b'.app', b'log', 'day')):
+        nm = Names(base, suffix)
+        blocker = nm.rotated(datestr(day0), b'1')
+        w = lambda k: ('w', (b'r%d.yyyyyyyyy' % k)[:9])
+        ops = [w(0), ('mkdir', blocker), w(1)]
+        if plan == 'day':
+            ops += [('adv', DAY), w(2), w(3), ('adv', 1000), w(4)]
+        elif plan == 'restart':
+            ops += [('adv', 5000), ('restart',), w(2), w(3), ('restart',), w(4)]
+        else:
+            ops += [w(2), w(3), ('adv', 1000), w(4), w(5)]
+        case = {'L': L, 'N': N, 'opts': opts, 'gran': gran, 'base': base, 'suffix': suffix, 't0': day0 * DAY + 40000000, 'tz': 0, 'ops': ops}
+        ls, _ = run_impl_one(impl, case)
+        if len(ls) != len(ops) + 1:
+            chk.broke('refused-rename probe: harness produced no listing', {'kind': 'harness', 'case': case_json(case)}); continue
+        bits, _, _, _ = verdicts(case, model, ls, 'C05')
+        fb = first_bad(bits, BIT['C05'])
+        written = b''.join(written_bytes(case, o[1]) for o in ops if o[0] == 'w')
+        have = b''.join(c for (n, _, c) in sorted((e for e in ls[-1] if nm.parse(e[0])), key=lambda e: (nm.parse(e[0])['date'], nm.parse(e[0])['idx']))) \
+            + b''.join(c for (n, _, c) in ls[-1] if n == nm.active)
+        if fb is not None or have != written:
+            found += 1
+            fbx = fb if fb is not None else len(ls) - 1
+            chk.fail('C05 falsified on the real RotatingFileSink: L=%d N=%d options=%d file=%s; a sub-directory named %s (the name of the next rotated file) '
+                     'makes the rename of the rotation fail; records are lost: %d bytes written, %d bytes in the sink\'s files at the end; oracle prop_c05_b '
+                     'false after operation %s (%s)' % (L, N, opts, nm.active.decode(), blocker.decode(), len(written), len(have), fb,
+                                                        show_op(([None] + ops)[fbx])),
+                     {'kind': 'records-lost-after-refused-rename', 'case': case_json(case), 'L': L, 'N': N, 'options': opts, 'first_bad_step': fb,
+                      'ops_readable': [show_op(o) for o in ops], 'oracle_bits_per_step(c05,c06,c07,c09)': bits,
+                      'bytes_written': len(written), 'bytes_in_the_files_at_the_end': len(have),
+                      'implementation_listing_at_failure': show_listing(ls[fbx]), 'final_listing': show_listing(ls[-1])},
+                     kind='records-lost-after-refused-rename')
+    return found
+
+
+def probe_message_older_than_the_send(chk, impl, model):
+    """C09 never_rotates_empty (+ C08: every .gz is a valid gzip file), harness only: a LogMessage object samples the wall clock
+    when it is CONSTRUCTED; one constructed before midnight and sent after it (a queued message of asynchronous logging)
+    reaches a sink whose lazily taken log date is already the new day while the log is still EMPTY.  There is nothing to
+    rotate: no file of the rotated-name scheme may appear, in particular no empty one and no .gz that is not a gzip file.
+    (What the model dates records by is the wall clock at the send; the message age is not a model dimension - DESIGN F7.)"""
+    found = 0
+    f7 = 0
+    for (L, N, opts, plan) in ((0, 0, 2, 'fresh'), (0, 0, 6, 'fresh'), (64, 3, 6, 'restart'), (0, 0, 3, 'startup'), (0, 5, 7, 'startup'), (64, 0, 2, 'restart')):
+        nm = Names(b'my.app', b'log')
+        aged = ('w', b'constructed 23:59, sent 00:01', 4, None, 120000)
+        if plan == 'fresh':
+            ops = [('adv', 120000), aged]
+        elif plan == 'restart':
+            ops = [('adv', 120000), ('restart',), aged]
+        else:                       # a record of the old day, rotated at the restart: the new active file is empty
+            ops = [('w', b'old day record'), ('adv', 120000), ('restart',), aged]
+        ops += [('w', b'new day record')]
+        case = {'L': L, 'N': N, 'opts': opts, 'gran': 1, 'base': b'my.app', 'suffix': b'log', 't0': 19700 * DAY + DAY - 60000, 'tz': 0, 'ops': ops}
+        ls, _ = run_impl_one(impl, case)
+        if len(ls) != len(ops) + 1:
+            chk.broke('aged-message probe: harness produced no listing', {'kind': 'harness', 'case': case_json(case)}); continue
+        bits, _, _, _ = verdicts(case, model, ls, 'C09')
+        fb = first_bad(bits, BIT['C09'])
+        bad = None
+        for i, l in enumerate(ls):
+            for (n, _, c) in l:
+                p = nm.parse(n)
+                if p and (c == b'' or c.startswith(b'<<not gzip')):
+                    bad = bad or (i, n, c)
+        want_rot = 1 if plan == 'startup' else 0
+        nrot = len([1 for (n, _, c) in ls[-1] if nm.parse(n)])
+        if bad or fb is not None or nrot != want_rot:
+            found += 1
+            i = bad[0] if bad else (fb if fb is not None else len(ls) - 1)
+            chk.fail('C09 falsified on the real RotatingFileSink: daily rotation (L=%d N=%d options=%d); a message object constructed at 23:59 is sent at '
+                     '00:01 to a sink whose log is EMPTY (%s): %s - an empty log must never be rotated' % (
+                         L, N, opts, plan, ('the file %s appears with %s' % (bad[1].decode(), 'no content' if bad[2] == b'' else 'bytes that are not a gzip stream (%d bytes)' % (len(bad[2]) - bad[2].index(b'>>') - 2))
+                                            if bad else '%d rotated file(s) at the end, expected %d' % (nrot, want_rot))),
+                     {'kind': 'empty-log-rotated-for-an-older-message', 'case': case_json(case), 'L': L, 'N': N, 'options': opts, 'first_bad_step': i,
+                      'ops_readable': [show_op(o) for o in ops], 'oracle_bits_per_step(c05,c06,c07,c09)': bits,
+                      'implementation_listing_at_failure': show_listing(ls[i]), 'implementation_listing_before': show_listing(ls[i - 1]) if i else None},
+                     kind='empty-log-rotated-for-an-older-message')
+        elif len([1 for (n, _, c) in ls[-1] if n == nm.active and c.count(b'\n') == 2]) == 1:
+            f7 += 1          # informational (DESIGN F7): the message dated to the old day and the new day's message share the active file
+    chk.cov['aged_message_and_next_day_message_share_the_active_file(F7, informational)'] = f7
+    return found
+
+
+def _utc_ms(y, m, d, hh, mm):
+    import calendar
+    return calendar.timegm((y, m, d, hh, mm, 0)) * 1000
+
+
+def probe_daylight_saving_days(chk, impl):
+    """C09 days_apart / name_carries_day in a zone WITH daylight-saving time (harness only: the model's zones are fixed offsets):
+    TZ=CET-1CEST,M3.5.0,M10.5.0/3.  The local day of the spring-forward night has 23 hours, the one of the fall-back night 25: a
+    record written at 00:30 local time of the next day is less than 24 h after the previous local midnight (spring), one written
+    at 23:30 is more than 24 h after it (autumn).  Files must hold one LOCAL day each and carry that day in their names."""
+    found = 0
+    TZ = 'CET-1CEST,M3.5.0,M10.5.0/3'
+    nm = Names(b'my.app', b'log')
+    plans = []
+    # spring 2024-03-31: local day = [03-30T23:00Z, 03-31T22:00Z)
+    for restart in (False, True):
+        for (L, opts) in ((0, 2), (64, 6)):
+            t0 = _utc_ms(2024, 3, 31, 10, 0)
+            ops = [('w', b'03-31 12:00 CEST'), ('adv', _utc_ms(2024, 3, 31, 21, 30) - t0), ('w', b'03-31 23:30 CEST'),
+                   ('adv', 3600000)] + ([('restart',)] if restart else []) + [('w', b'04-01 00:30 CEST'), ('adv', 12 * 3600000), ('w', b'04-01 12:30 CEST')]
+            want = {nm.rotated(b'2024-03-31', b'1', bool(opts & 4)): b'03-31 12:00 CEST\n03-31 23:30 CEST\n', nm.active: b'04-01 00:30 CEST\n04-01 12:30 CEST\n'}
+            plans.append(('spring-forward night (a local day of 23 hours)', L, opts, t0, ops, want))
+            # autumn 2024-10-27: local day = [10-26T22:00Z, 10-27T23:00Z)
+            t0 = _utc_ms(2024, 10, 27, 10, 0)
+            ops = [('w', b'10-27 11:00 CET'), ('adv', _utc_ms(2024, 10, 27, 22, 30) - t0)] + ([('restart',)] if restart else []) + \
+                  [('w', b'10-27 23:30 CET'), ('adv', 3600000), ('w', b'10-28 00:30 CET'), ('adv', 3600000), ('w', b'10-28 01:30 CET')]
+            want = {nm.rotated(b'2024-10-27', b'1', bool(opts & 4)): b'10-27 11:00 CET\n10-27 23:30 CET\n', nm.active: b'10-28 00:30 CET\n10-28 01:30 CET\n'}
+            plans.append(('fall-back night (a local day of 25 hours)', L, opts, t0, ops, want))
+    for (what, L, opts, t0, ops, want) in plans:
+        case = {'L': L, 'N': 0, 'opts': opts, 'gran': 1, 'base': b'my.app', 'suffix': b'log', 't0': t0, 'tz': 0, 'tzname': TZ, 'ops': ops}
+        ls, _ = run_impl_one(impl, case)
+        if len(ls) != len(ops) + 1:
+            chk.broke('daylight-saving probe: harness produced no listing', {'kind': 'harness', 'case': case_json(case)}); continue
+        got = {n: c for (n, _, c) in ls[-1]}
+        if got != want:
+            found += 1
+            chk.fail('C09 falsified on the real RotatingFileSink: daily rotation (L=%d N=0 options=%d) in the zone %s around the %s: expected the files %s, found %s - '
+                     'records of two local calendar days share a file, or a file is named after another day than the one its records were written on' % (
+                         L, opts, TZ, what, sorted((n.decode(), c.decode()) for n, c in want.items()), sorted((n.decode(), c.decode('utf-8', 'replace')) for n, c in got.items())),
+                     {'kind': 'daylight-saving-day-length', 'case': case_json(case), 'L': L, 'N': 0, 'options': opts, 'TZ': TZ, 'night': what,
+                      'ops_readable': [show_op(o) for o in ops], 'expected_final_listing': sorted((n.decode(), c.decode()) for n, c in want.items()),
+                      'final_listing': show_listing(ls[-1])}, kind='daylight-saving-day-length')
+    return found
 
 
 def run_check(pid):
@@ -985,7 +1134,11 @@ def run_check(pid):
         chk.cov['plain_and_gz_twin_probe_failures'] = probe_plain_and_gz_twin(chk, impl, model)
     if pid == 'C07':
         chk.cov['huge_sparse_file_probe_failures'] = probe_huge_sparse_file(chk, impl)
+    if pid == 'C05':
+        chk.cov['refused_rename_probe_failures'] = probe_rename_refused(chk, impl, model)
     if pid == 'C09':
+        chk.cov['message_older_than_the_send_probe_failures'] = probe_message_older_than_the_send(chk, impl, model)
+        chk.cov['daylight_saving_days_probe_failures'] = probe_daylight_saving_days(chk, impl)
         chk.cov['buffered_record_crosses_midnight_probe_failures'] = probe_buffered_record_crosses_midnight(chk, impl, model)
         chk.cov['huge_file_daily_probe_failures'] = probe_huge_file_daily(chk, impl)
     chk.cov['unrelated_sinks_probe_failures'] = probe_unrelated_sinks_share_nothing(chk, impl, model, pid)
